@@ -43,7 +43,6 @@ EdgeInv == EdgeRep /\ EdgeEv /\ EdgeLk /\ EdgeOnce
 
 \* the meaning table travels to the harness with the edge dump
 ASSUME PrintT(<<"MEANING", ToJson(Meaning)>>)
-ASSUME PrintT(<<"INIT", ToString(<<InitS.down, InitS.len, {}, {<<<<>>, "none", "", 0>>}, {}, {}, {}, {}, {}, {<<>>}, {}, {}>>)>>)
 
 \* --- edge emission: VIEW hides the observation so that every abstract
 \*     state is expanded once; the action constraint prints every edge ---
@@ -65,6 +64,8 @@ CanonS(X) ==
      {<<c, X.lockedKeys[c]>> : c \in DOMAIN X.lockedKeys},
      {<<id, X.spub[id]>> : id \in DOMAIN X.spub},
      {<<c, X.csubs[c]>> : c \in DOMAIN X.csubs} >>
+\* the node every walk starts from (same canonical form as the edges)
+ASSUME PrintT(<<"INIT", ToString(CanonS(InitS))>>)
 
 \* in the edge dump every S is expanded once (VIEW S), so enabledness must not
 \* depend on the history R
